@@ -8,7 +8,7 @@ W=/tmp/confirm_$NAME
 git -C /repo worktree remove --force $W >/dev/null 2>&1; rm -rf $W
 git -C /repo worktree add --detach $W HEAD >/dev/null 2>&1 || { echo "cannot create worktree"; exit 2; }
 cd $W
-cp "$DEMO" "$DEST"
+mkdir -p "$(dirname "$DEST")"; cp "$DEMO" "$DEST"
 go test -vet=off -count=1 "$@" > /tmp/confirm_$NAME.base.log 2>&1; BASE=$?
 git apply "$PATCH" || { echo "patch does not apply"; exit 2; }
 go build ./... > /tmp/confirm_$NAME.build.log 2>&1; BUILD=$?
